@@ -56,7 +56,12 @@ CONFIG = dict(
          "collisions; all orderings of local/remote identifiers; (b) exhaustive: breadth-first search over the reachable states "
          "of the model (28 per configuration) x the full alphabet of 38 role/event pairs, for local identifier lower/equal/"
          "higher than the remote one: 3192 histories, so Established-vs-newcomer and every collision are covered in every "
-         "run; (c) about one case in forty is a driver-level wire case (real TCP, real ConnArbiter close channels); "
+         "run; (c) about one case in forty is a driver-level wire case (real TCP, real ConnArbiter close channels); (d) "
+         "deterministic sweep in every run: one handshake per combination of boundary identifier (0, 1, 223.255.255.255, "
+         "224.0.0.0, 239.255.255.255, 240.0.0.0, 255.255.255.254, 255.255.255.255) x hold time (0,1,2,3,4,65534,65535) x AS "
+         "(expected, other, 0, 1, AS_TRANS, 65535, 65536, 2^32-1) for expected AS 65002 and 'any', and the collision decision "
+         "for local identifier equal / adjacent / byte-swapped relative to the remote one in both arrival orders (FSM and "
+         "wire level); "
          "non-trivial = some connection went down, was parse-rejected, reached Established, or a NOTIFICATION/EOF was "
          "delivered; distinct = distinct case line",
     expect_tokens=["established", "(6 7)", "parse-reject", "(5 3)", "(5 4)", "(5 5)", "hold-expired", "close-connection",
@@ -68,7 +73,8 @@ CONFIG = dict(
                   "harness/daemon/fsm.rs (FSM stream): a raw OPEN is built by the harness, parsed by the real PeerCodec; on a "
                   "parse error the harness feeds Input::Disconnected (transcribed; the wire stream runs the real path)",
                   "harness/daemon/rig.rs (wire stream): transcribed session_loop preamble/tail and run->apply_disconnect call, "
-                  "single-threaded pumping to quiescence, 12 ms idle detection"],
+                  "single-threaded pumping to quiescence under the runtime's paused clock (a session is idle when run_select stays "
+                  "pending over several driver turns)"],
     modelled_not_verified=["races between the two session tasks of one peer (tokio scheduling): the rig serialises them",
                            "PeerFsmOutput::CloseConnection in apply_outputs (unreachable at quiescence: accept_connection "
                            "refuses a second connection of a role first)", "run's last block (clear_session_state / "
@@ -77,9 +83,9 @@ CONFIG = dict(
                  "(the arbiter is behind one mutex; message-level interleavings are histories of the FSM stream)"],
 )
 
-RIDS = [1, 16843009, 33686018, 167772161, 4294967294]
-BAD_RIDS = [0, 4294967295, 3758096385, 4026531839]   # unspecified, broadcast, 224.0.0.1, 239.255.255.255
-HOLDS = [0, 3, 9, 90, 240, 65535]
+RIDS = [1, 16843009, 33686017, 33686018, 33686019, 167772161, 4294967294]   # incl. neighbours of 33686018
+BAD_RIDS = [0, 4294967295, 3758096384, 3758096385, 4026531839]   # unspecified, broadcast, 224.0.0.1, 239.255.255.255
+HOLDS = [0, 3, 4, 9, 90, 240, 65534, 65535]
 BAD_HOLDS = [1, 2]
 # (code, subcode) pairs that Notification::from_notification maps back to themselves
 NOTIFS = [(1, 2), (2, 2), (2, 6), (3, 1), (4, 0), (5, 3), (6, 2), (6, 4), (6, 7), (6, 9), (7, 1), (9, 9)]
@@ -255,10 +261,38 @@ def gen_wire(r):
     return "(wire (cfg %d 65001 %d %d) (evs %s))" % (local_rid, local_hold, expected, " ".join(evs))
 
 
+# exact boundaries of the three checked OPEN fields (validId: 0, 224.0.0.0-239.255.255.255 and 255.255.255.255 are refused)
+EDGE_RIDS = [0, 1, 3758096383, 3758096384, 4026531839, 4026531840, 4294967294, 4294967295]
+EDGE_HOLDS = [0, 1, 2, 3, 4, 65534, 65535]
+EDGE_ASNS = [65002, 65003, 0, 1, 23456, 65535, 65536, 4294967295]   # expected AS is 65002 or 0 (any)
+
+
+def open_sweep():
+    """Deterministic, in EVERY run: one handshake per combination of boundary identifier x hold time x AS number (raw OPEN
+    through the real parser), for expected AS 65002 and 'any'; and the collision decision for local identifiers equal,
+    adjacent (+-1) and byte-swapped relative to the remote one, with the OPENs arriving in either order."""
+    out = []
+    for expected in (65002, 0):
+        for rid in EDGE_RIDS:
+            for hold in EDGE_HOLDS:
+                for asn in EDGE_ASNS:
+                    out.append("(case (cfg 16843009 65001 90 %d) (evs (A (connected f)) (A (open %d %d %d)) (A keepalive)))"
+                               % (expected, asn, hold, rid))
+    remote = 33554433          # 2.0.0.1
+    for local in (remote, remote - 1, remote + 1, 16777218, 4294967294, 1):      # 16777218 = 1.0.0.2: byte-swapped order differs
+        for first, second in (("A", "P"), ("P", "A")):
+            out.append("(case (cfg %d 65001 90 65002) (evs (A (connected f)) (P (connected f)) (%s (open 65002 90 %d)) "
+                       "(%s (open 65002 90 %d)) (A keepalive) (P keepalive)))" % (local, first, remote, second, remote))
+            out.append("(wire (cfg %d 65001 90 65002) (evs (A connect) (P connect) (%s (open 65002 90 %d)) "
+                       "(%s (open 65002 90 %d)) (A keepalive) (P keepalive)))" % (local, first, remote, second, remote))
+    return out
+
+
 def gen(seed, n, tier):
     r = Rng(seed * 1000003 + 7)
     cases = []
     for _ in range(n):
         cases.append(gen_wire(r) if r.chance(1, 40) else gen_case(r))   # wire cases cost ~0.3 s of real time each
     cases += bfs_cases()
+    cases += open_sweep()
     return cases
